@@ -219,7 +219,8 @@ theorem convert_none_of_dup (items : List Item)
 /-- what an accepted definition looks like -/
 theorem convert_some {items : List Item} {d : Declared} (h : convert items = some d) :
     d.cols = (parse items).cols.map decl ∧
-    ∀ k, d.key = some k → (parse items).pk = [k] ∧ k ∈ (parse items).cols.map Col.name := by
+    ∀ k, d.key = some k → (∃ k0, (parse items).pk = [k0] ∧ lower k = lower k0) ∧
+      k ∈ (parse items).cols.map Col.name := by
   unfold convert at h
   simp only [] at h
   split at h
@@ -229,13 +230,16 @@ theorem convert_some {items : List Item} {d : Declared} (h : convert items = som
     · split at h
       · cases h
       · split at h
-        · split at h
-          · rename_i k hpk hc
+        · rename_i k hpk
+          split at h
+          · rename_i n hn
             cases h
             refine ⟨rfl, ?_⟩
             intro k' hk'
             cases hk'
-            exact ⟨hpk, by simpa using hc⟩
+            have hmem := List.mem_of_find?_eq_some hn
+            have hp := List.find?_some hn
+            exact ⟨⟨k, hpk, by simpa using hp⟩, hmem⟩
           · cases h
         · cases h
           exact ⟨rfl, fun k hk => by cases hk⟩
